@@ -1065,3 +1065,51 @@ Proof.
         unfold error_rule in H1. destruct (Nat.eqb _ _); [discriminate|]. inversion H1 as [Hst].
         unfold stats_value. rewrite Hst. exact Hv.
 Qed.
+
+(* ------------------------------------------------------------------ /api/topics as a whole *)
+Theorem topics_view_partial : forall mode ups,
+  ((forall u, In u ups -> failed u = true) -> topics_view mode ups = VStatus 502) /\
+  (~ (forall u, In u ups -> failed u = true) ->
+     exists v, topics_view mode ups = VOk v (warn_of (nfailed ups)) /\
+               topics_view mode (ok_part ups) = VOk v false /\
+               (warn_of (nfailed ups) = true <-> exists u, In u ups /\ failed u = true)).
+Proof.
+  intros mode ups.
+  assert (forall (F : list (bytes * list bytes) -> list bytes),
+    let r := error_rule (length ups) (nfailed ups) (F (answers ups)) in
+    ((forall u, In u ups -> failed u = true) -> r = AHard) /\
+    (~ (forall u, In u ups -> failed u = true) ->
+       exists v, r = AOk v (nfailed ups) /\
+                 error_rule (length (ok_part ups)) (nfailed (ok_part ups)) (F (answers (ok_part ups))) = AOk v 0)) as G.
+  { intro F. cbv zeta. destruct (partial_view _ F ups) as [Hh Ho]. cbv zeta in Hh, Ho. split.
+    - intro H. apply Hh. exact H.
+    - intro Hn. destruct (error_rule (length ups) (nfailed ups) (F (answers ups))) as [|v n] eqn:E.
+      + exfalso. apply Hn. apply Hh. reflexivity.
+      + destruct (Ho v n eq_refl) as [H1 [H2 _]]. subst n. exists v. split. reflexivity. exact H1. }
+  assert (warn_of (nfailed ups) = true <-> exists u, In u ups /\ failed u = true) as W.
+  { unfold warn_of. rewrite negb_true_iff, Nat.eqb_neq. apply nfailed_pos_iff. }
+  unfold topics_view, lookupd_topics, nsqd_topics. destruct mode.
+  - destruct (G (fun ans => sort_strings (s_uniq (flat_map snd ans)))) as [G1 G2]. cbv zeta in G1, G2. split.
+    + intro H. rewrite (G1 H). reflexivity.
+    + intro H. destruct (G2 H) as [v [H1 H2]]. exists v. rewrite H1, H2. auto.
+  - destruct (G (fun ans => sort_strings (fold_left s_add (flat_map snd ans) []))) as [G1 G2]. cbv zeta in G1, G2. split.
+    + intro H. rewrite (G1 H). reflexivity.
+    + intro H. destruct (G2 H) as [v [H1 H2]]. exists v. rewrite H1, H2. auto.
+Qed.
+
+(* the tombstone flags: one per topic, the given flag where there is one, false beyond *)
+Theorem pair_pure_spec : forall topics tombs,
+  length (pair_pure 0 topics tombs) = length topics /\
+  forall i t b, nth_error (pair_pure 0 topics tombs) i = Some (t, b) ->
+                nth_error topics i = Some t /\ b = nth i tombs false.
+Proof.
+  intros topics tombs. split. apply pair_pure_length.
+  assert (forall topics k i t b, nth_error (pair_pure k topics tombs) i = Some (t, b) ->
+                                 nth_error topics i = Some t /\ b = nth (k + i) tombs false) as G.
+  { induction topics0 as [|x r IH]; intros k i t b H.
+    - destruct i; discriminate.
+    - destruct i as [|i]; simpl in *.
+      + inversion H; subst. rewrite Nat.add_0_r. auto.
+      + destruct (IH (S k) i t b H) as [H1 H2]. split. exact H1. rewrite H2. f_equal. lia. }
+  intros i t b H. apply (G topics 0%nat i t b H).
+Qed.
